@@ -769,7 +769,7 @@ func (fv *FuncVC) appendFacts(old, nh Term, dst Term, np, nc Term, esz int64, in
 		np.S, endOld.S, nh.S, old.S, np.S, slPtr(dst).S, nh.S), Sort: SBool})
 	if elem != nil {
 		for i := int64(0); i < nelem; i++ {
-			fv.assumeHere(eq(sel(nh, add(np, mul(intLit(esz), add(l, intLit(i))))), elem(i)))
+			fv.assumeHere(eq(sel(nh, fv.ix(np, add(l, intLit(i)), esz)), elem(i)))
 		}
 	} else {
 		endNew := add(endOld, mul(intLit(esz), srcLen))
